@@ -55,6 +55,10 @@ pub enum Kind {
     IssuanceBlindValueProof,
     IssuanceBlindKeysProof,
     BlindedIssuance,
+    /// the explicit issuance amount (keys) added next to an existing commitment: serves the explicit-value proof, the
+    /// transaction keeps carrying the commitment
+    IssuanceAmountNextToComm,
+    IssuanceKeysNextToComm,
     // output, map-valued
     OutBip32,
     OutTapKeyOrigin,
@@ -84,7 +88,7 @@ pub const INPUT_KINDS: &[Kind] = &[
     Kind::TapInternalKey, Kind::TapMerkleRoot, Kind::InUtxoRangeproof, Kind::InAmount, Kind::InAsset, Kind::InValueProof, Kind::InAssetProof, Kind::PeginTx, Kind::PeginTxoutProof, Kind::PeginGenesis,
     Kind::PeginClaimScript, Kind::PeginValue,
     // witness-side and bookkeeping fields that do not change the unsigned transaction either
-    Kind::PeginWitness, Kind::IssuanceValueRangeproof, Kind::IssuanceKeysRangeproof, Kind::IssuanceBlindValueProof, Kind::IssuanceBlindKeysProof, Kind::BlindedIssuance,
+    Kind::PeginWitness, Kind::IssuanceValueRangeproof, Kind::IssuanceKeysRangeproof, Kind::IssuanceBlindValueProof, Kind::IssuanceBlindKeysProof, Kind::BlindedIssuance, Kind::IssuanceAmountNextToComm, Kind::IssuanceKeysNextToComm,
 ];
 pub const OUTPUT_KINDS: &[Kind] = &[Kind::OutBip32, Kind::OutTapKeyOrigin, Kind::OutProprietary, Kind::OutUnknown, Kind::OutRedeemScript, Kind::OutWitnessScript, Kind::OutTapInternalKey, Kind::OutTapTree, Kind::OutValueProof, Kind::OutAssetProof, Kind::OutRangeproof, Kind::OutSurjectionProof];
 pub const GLOBAL_KINDS: &[Kind] = &[Kind::GlobalXpub, Kind::GlobalScalar, Kind::GlobalProprietary, Kind::GlobalUnknown, Kind::GlobalTxModifiable, Kind::GlobalElementsModifiable];
@@ -386,6 +390,18 @@ fn apply(ps: &mut Pset, a: &Addition, case_seed: u64) -> Option<(String, Present
         Kind::IssuanceBlindValueProof => inp_single!(in_issuance_blind_value_proof, Box::new(p.pick(&pl.rangeproofs).clone())),
         Kind::IssuanceBlindKeysProof => inp_single!(in_issuance_blind_inflation_keys_proof, Box::new(p.pick(&pl.rangeproofs).clone())),
         Kind::BlindedIssuance => inp_single!(blinded_issuance, p.u8()),
+        Kind::IssuanceAmountNextToComm => {
+            if n_in == 0 || ps.inputs()[a.index % n_in].issuance_value_comm.is_none() {
+                return None;
+            }
+            inp_single!(issuance_value_amount, 1 + p.below(1 << 40))
+        }
+        Kind::IssuanceKeysNextToComm => {
+            if n_in == 0 || ps.inputs()[a.index % n_in].issuance_inflation_keys_comm.is_none() {
+                return None;
+            }
+            inp_single!(issuance_inflation_keys, 1 + p.below(1000))
+        }
         Kind::OutBip32 => {
             let k = psetgen::btc_pubkey(&mut p);
             let v = ks_for(&k.to_bytes());
@@ -565,6 +581,16 @@ fn xpub_check(ctx: &mut Ctx, base: &Pset, rel: &XpubRelation, seed: u64) {
     pa.global.xpub.insert(xpub, (a.0, path(&a.1)));
     let mut pb = base.clone();
     pb.global.xpub.insert(xpub, (b.0, path(&b.1)));
+    // each side also knows an xpub the other does not (sorting before or after the related one): both must survive
+    let mut extras = Vec::new();
+    for side in 0..2 {
+        if let Ok(xp) = Xpriv::new_master(elements::bitcoin::Network::Bitcoin, &p.bytes(32)) {
+            let k = Xpub::from_priv(gen::secp(), &xp);
+            let ks = (fp1, path(&[p.below(50) as u32, side]));
+            if side == 0 { pa.global.xpub.insert(k, ks) } else { pb.global.xpub.insert(k, ks) };
+            extras.push(k);
+        }
+    }
     for (dir, x, y) in [("self<-other", &pa, &pb), ("other<-self", &pb, &pa)] {
         let mut m = x.clone();
         let other = y.clone();
@@ -572,6 +598,7 @@ fn xpub_check(ctx: &mut Ctx, base: &Pset, rel: &XpubRelation, seed: u64) {
         ctx.ev("xpub.merge", r.is_ok() as u64);
         match (&expect, r) {
             (Some((fp, pth)), Ok(())) => {
+                ctx.check(extras.iter().all(|k| m.global.xpub.contains_key(k)), "C14.union.GlobalXpub", "lost-next-to-related", || format!("xpub key sources {:?} ({}): an xpub known to one operand only is missing after the merge", rel, dir));
                 let got = m.global.xpub.get(&xpub).cloned();
                 ctx.check(got == Some((*fp, path(pth))), &format!("C14.xpub.{}", relname), "wrong-winner", || format!("xpub key sources {:?} ({}): documented rule keeps the longer derivation {:?}/{:?}, merge kept {:?}", rel, dir, fp, pth, got));
             }
@@ -704,6 +731,35 @@ pub fn execute(case: &MergeCase, ctx: &mut Ctx) {
         if ancestor.inputs().is_empty() {
             // (a repository vector without inputs)
             return;
+        }
+        // ... and an operand that has NO unique id at all (its inputs' lock-time requirements contradict each other):
+        // whatever merge answers, a receiver that had a unique id still has the same one afterwards
+        if ancestor.inputs().len() >= 2 {
+            let mut bad = ancestor.clone();
+            {
+                let ins = bad.inputs_mut();
+                ins[0].required_time_locktime = Some(elements::locktime::Time::from_consensus(500_000_000 + q.below(1000) as u32).expect("time"));
+                ins[0].required_height_locktime = None;
+                ins[1].required_height_locktime = Some(elements::locktime::Height::from_consensus(1 + q.below(1000) as u32).expect("height"));
+                ins[1].required_time_locktime = None;
+            }
+            if matches!(ctx.call("Pset::unique_id", 0, || bad.unique_id().is_err()), Some(true)) {
+                ctx.probe("one_sided_missing_unique_id");
+                for (dir, x, y) in [("valid<-idless", &ancestor, &bad), ("idless<-valid", &bad, &ancestor)] {
+                    let mut m = x.clone();
+                    let o = y.clone();
+                    match ctx.call("Pset::merge", 0, || m.merge(o)) {
+                        Some(r) => {
+                            if dir == "valid<-idless" {
+                                let after = ctx.call("Pset::unique_id", 0, || m.unique_id());
+                                let kept = matches!(&after, Some(Ok(id)) if *id == id0);
+                                ctx.check(kept, "C14.uid", "lost-after-idless-operand", || format!("merging an operand without a unique id into a PSET returned {:?} and left the receiver with unique id {:?} instead of {}", r.is_ok(), after, id0));
+                            }
+                        }
+                        None => ctx.violate("C14.ok", "panic", format!("merge ({}) with an operand that has no unique id panicked", dir)),
+                    }
+                }
+            }
         }
         let mut other = ancestor.clone();
         other.inputs_mut()[0].previous_output_index = other.inputs()[0].previous_output_index.wrapping_add(1) & 0x3fff_ffff;
